@@ -13,6 +13,8 @@ use std::collections::BTreeMap;
 pub struct Accept {
     /// data race present under the smallest hb
     pub race: bool,
+    /// data race present even under the largest hb
+    pub race_large: bool,
     /// no thread can step (strictly: without MAY-only spurious allowances) and some are unfinished
     pub deadlocked: bool,
     pub all_done: bool,
@@ -95,6 +97,10 @@ fn replay_once<'p>(p: &'p Program, hist: &[HEv], cfg: &MachineCfg, partial: bool
     }
     let hb = m.g.hb(cfg.reading);
     let race = m.g.find_race(&hb).is_some();
+    let race_large = if m.has_na_events() { m.g.find_race(&m.hb_large()).is_some() } else { false };
+    if m.cell_mismatch && !race {
+        return Err("an UnsafeCell read returned something else than the latest write although all accesses to the cell are ordered by happens-before".into());
+    }
     let all_done = m.all_done();
     let mut any_enabled = false;
     for t in 0..nt {
@@ -102,7 +108,7 @@ fn replay_once<'p>(p: &'p Program, hist: &[HEv], cfg: &MachineCfg, partial: bool
             any_enabled = true;
         }
     }
-    Ok(Accept { race, deadlocked: !any_enabled && !all_done, all_done, leak: if all_done { m.leak() } else { None }, results: m.results.clone() })
+    Ok(Accept { race, race_large, deadlocked: !any_enabled && !all_done, all_done, leak: if all_done { m.leak() } else { None }, results: m.results.clone() })
 }
 
 fn hidden_phase_pending(m: &Machine<'_>, t: usize) -> bool {
